@@ -34,3 +34,52 @@ Proof.
   exact (proj1 (proj2 (proj1 (position_invariant K toks verbose use_cache M aeval ex td Ht Hw fuel n init_state HI)))).
 Qed.
 Print Assumptions C05_every_invocation.
+
+(* ... and [ir_wf] is a THEOREM about the generator (Proofs/GenWf.v): for EVERY grammar in which forced
+   items stand directly among the items of an alternative (not inside groups, optionals, repetitions,
+   gathers or lookaheads -- which excludes exactly the recorded finding "lookahead over a forced
+   item"), no repetition or gather is applied directly to a cut, and no rule name starts with an
+   underscore, whatever the analysis results and tables, the module the generator model emits is
+   well-formed.  Hence every parser generated from such a grammar keeps the position invariant, for
+   every invocation of every method on every input. *)
+From Pegen Require Import Grammar.Ast Analysis.Nullable Proofs.GenWf.
+Theorem C05_generated_parsers_keep_the_position_invariant :
+  forall invalid_tbl iter_fields pre suf file fb g an M,
+  grammar_shape_ok g = true ->
+  generate invalid_tbl iter_fields pre suf file fb g an = inl M ->
+  forall K toks verbose use_cache aeval exact_types token_dict,
+  (forall text e v, aeval text e = Some v -> truthy v = true) ->
+  forall fuel n,
+  Forall event_ok (events (snd (run K toks verbose use_cache M aeval exact_types token_dict fuel n init_state))) /\
+  (forall st, Inv st -> post st (run K toks verbose use_cache M aeval exact_types token_dict fuel n st)).
+Proof.
+  intros tbl itf pre suf file fb g an M Hg HM K toks verbose use_cache aeval ex td Ht fuel n.
+  pose proof (generated_ir_wf tbl itf pre suf file fb g an M Hg HM) as Hw.
+  split; [exact (C05_every_invocation K toks verbose use_cache M aeval ex td Ht Hw fuel n)|].
+  intros st HI. exact (C05_position_invariant K toks verbose use_cache M aeval ex td Ht Hw fuel n st HI).
+Qed.
+Print Assumptions C05_generated_parsers_keep_the_position_invariant.
+
+(* non-vacuity: a grammar with a forced item, a gather, a repetition, an optional, lookaheads and a cut meets the
+   shape hypothesis and is generated.   start: 'if' ~ &&NAME ','.(a | NUMBER)+ [b] !'x' NEWLINE ; a: NAME ; b: 'x'* *)
+Definition g05 : grammar :=
+  {| rules :=
+       [{| rname := "start"; rtype := None; rmemo := false;
+           rrhs := Rhs 1 [Alt [NItem 20 None None (StringLeaf "'if'"); NItem 21 None None Cut;
+                                NItem 22 None None (Forced (NameLeaf "NAME"));
+                                NItem 2 None None (Gather 3 (StringLeaf "','")
+                                   (Group (Rhs 4 [Alt [NItem 5 None None (NameLeaf "a")] None; Alt [NItem 6 None None (NameLeaf "NUMBER")] None])));
+                                NItem 7 None None (Opt (NameLeaf "b"));
+                                NItem 8 None None (NegLook (StringLeaf "'x'"));
+                                NItem 9 None None (NameLeaf "NEWLINE")] None] |};
+        {| rname := "a"; rtype := None; rmemo := false; rrhs := Rhs 10 [Alt [NItem 11 None None (NameLeaf "NAME")] None] |};
+        {| rname := "b"; rtype := None; rmemo := false; rrhs := Rhs 12 [Alt [NItem 13 None None (Repeat0 14 (StringLeaf "'x'"))] None] |}];
+     metas := [] |}.
+Example C05_generated_example :
+  grammar_shape_ok g05 = true /\
+  match generate [] [] "" "" "g" 100 g05 {| a_nullable := ["b"]; a_item_nullable := [7%N; 13%N]; a_graph := []; a_left_rec := []; a_leaders := [] |} with
+  | inl M => ir_wf M = true /\ List.length (i_meths M) = 7
+  | inr _ => False
+  end.
+Proof. vm_compute. repeat split; reflexivity. Qed.
+Print Assumptions C05_generated_example.
